@@ -45,6 +45,7 @@ pub mod c13;
 #[cfg(feature = "full")]
 pub mod c14;
 pub mod c15;
+pub mod c16;
 pub mod c17;
 #[cfg(feature = "full")]
 pub mod c18;
@@ -71,6 +72,7 @@ pub fn get(id: &str) -> Option<PropDef> {
         "C12" => Some(c12::def()),
         "C13" => Some(c13::def()),
         "C15" => Some(c15::def()),
+        "C16" => Some(c16::def()),
         "C17" => Some(c17::def()),
         "C19" => Some(c19::def()),
         "C20" => Some(c20::def()),
@@ -82,6 +84,7 @@ pub fn get(id: &str) -> Option<PropDef> {
 pub fn child_main(args: &[String]) -> i32 {
     match args.first().map(|s| s.as_str()) {
         Some("c03-deep") => c03::child(&args[1..]),
+        Some("c16") => c16::child(&args[1..]),
         _ => {
             eprintln!("unknown child op {:?}", args.first());
             2
